@@ -4,6 +4,7 @@ Online monitor per query, on sessions like C06's (filters, selections, commands 
 (reference semantics), with `~ N` (N >= 1) its last N; matched + didn't + not checked = |recorded(selection)|; state
 (filter, breakpoint, selection, recorded tuples) is snapshotted around every query and must not change; a repeated
 query gives the same answer."""
+import zlib
 from .. import wlxml, streams, env, mgen, mref, joinref, outline, history
 from ..session import Session
 from ..runner import h64
@@ -35,7 +36,10 @@ def snapshot(s):
 
 def run_query(s, cmd):
     n0 = len(s.events)
-    s.command(cmd)
+    if zlib.crc32(cmd.encode('utf-8', 'replace')) % 3 == 0 and '\n' not in cmd and cmd.split()[:1] not in (['q'], ['quit'], ['r'], ['resume']):
+        s.prompt(cmd)       # typed at the prompt of load-from-file / run mode (a function of the text, so that a replay does the same)
+    else:
+        s.command(cmd)
     outs = [p for k, p in s.events[n0:] if k == 'out']
     errs = [p for k, p in s.events[n0:] if k == 'err']
     items = [outline.parse_line(o) for o in outs]
